@@ -185,7 +185,10 @@ def _find_with_index_operator(index, op, argument):
         abs_tol = float(abs_tol)
 
         def op(value, argument):
-            return isclose(value, argument, rel_tol=rel_tol, abs_tol=abs_tol)
+            # Values that are not numbers (str, None, lists, ...) are never near a number.
+            return isinstance(value, Number) and isclose(
+                value, argument, rel_tol=rel_tol, abs_tol=abs_tol
+            )
 
     else:
         op = getattr(operator, {"$gte": "$ge", "$lte": "$le"}.get(op, op)[1:])
